@@ -27,7 +27,8 @@ macro_rules! deserialize_num {
             let text: &str = self.content.as_ref();
             match text.parse() {
                 Ok(number) => visitor.$visit(number),
-                Err(_) => self.content.deserialize_str(visitor),
+                // Not a number: give the visitor the string, unescaped if necessary
+                Err(_) => self.deserialize_str(visitor),
             }
         }
     };
@@ -146,7 +147,12 @@ impl<'de, 'a> Deserializer<'de> for AtomicDeserializer<'de, 'a> {
     where
         V: Visitor<'de>,
     {
-        self.content.deserialize_bool(visitor)
+        let text: &str = self.content.as_ref();
+        match text {
+            "1" | "true" | "0" | "false" => self.content.deserialize_bool(visitor),
+            // Not a boolean: give the visitor the string, unescaped if necessary
+            _ => self.deserialize_str(visitor),
+        }
     }
 
     deserialize_num!(deserialize_i8  => visit_i8);
